@@ -761,6 +761,13 @@ func ruleWEBverbatimAlpha(w *World, r *Report) {
 				ai = i + 1 // receiver first
 			}
 		}
+		if ai < 0 { // by type: the one float64 parameter of the search entry points
+			for i := 0; i < sig.Params().Len(); i++ {
+				if basicKind(sig.Params().At(i).Type()) == types.Float64 {
+					ai = i + 1
+				}
+			}
+		}
 		if ai < 0 {
 			continue
 		}
@@ -930,6 +937,9 @@ func ruleGRDnoQueryShortcut(w *World, r *Report) {
 	for _, p := range fn.Params {
 		if p.Name() == "k" {
 			kParam = p
+		}
+		if kParam == nil && basicKind(p.Type()) == types.Int {
+			kParam = p // the first int parameter, whatever it is called
 		}
 		if strings.HasSuffix(p.Type().String(), "[]float32") {
 			qParam = p
